@@ -207,7 +207,7 @@ def gen_case18(rng, cache):
         spec = gen_language(rng, Cfg(max_assets=6, max_assocs=6, max_depth=1, dup_assoc_names=0.5, inherit_bias=0.75))
         s = spec
     lang = Lang(spec)
-    am = gen_amodel(rng, lang, MCfg(max_assets=8, attackers=0.8, hostile_names=0.1, explicit_ids=0.5))
+    am = gen_amodel(rng, lang, MCfg(max_assets=8, attackers=0.8, hostile_names=0.1, explicit_ids=0.5, large=rng.random() < 0.04))
     # attacker ids: after the assets, sometimes explicit
     nxt = max([a['id'] for a in am.assets] + [-1]) + 1
     for t in am.attackers:
